@@ -442,6 +442,10 @@ spif_bool_t
 spif_ustr_clear(spif_ustr_t self, spif_char_t c)
 {
     ASSERT_RVAL(!SPIF_USTR_ISNULL(self), FALSE);
+    if (self->s == (spif_charptr_t) NULL) {
+        /* No buffer, i.e. an empty string.  Nothing to do. */
+        return TRUE;
+    }
     memset(self->s, c, self->size);
     self->s[self->len] = 0;
     return TRUE;
@@ -473,6 +477,10 @@ spif_ustr_downcase(spif_ustr_t self)
     spif_charptr_t tmp;
 
     ASSERT_RVAL(!SPIF_USTR_ISNULL(self), FALSE);
+    if (self->s == (spif_charptr_t) NULL) {
+        /* No buffer, i.e. an empty string.  Nothing to do. */
+        return TRUE;
+    }
     for (tmp = self->s; *tmp; tmp++) {
         *tmp = tolower(*tmp);
     }
@@ -841,6 +849,10 @@ spif_ustr_upcase(spif_ustr_t self)
     spif_charptr_t tmp;
 
     ASSERT_RVAL(!SPIF_USTR_ISNULL(self), FALSE);
+    if (self->s == (spif_charptr_t) NULL) {
+        /* No buffer, i.e. an empty string.  Nothing to do. */
+        return TRUE;
+    }
     for (tmp = self->s; *tmp; tmp++) {
         *tmp = toupper(*tmp);
     }
